@@ -94,6 +94,19 @@ impl Trie {
         }
     }
 
+    /// A trie over `fam` in which the keys flagged in `present` exist.
+    fn with_present(fam: Vec<Key>, present: &[bool]) -> Self {
+        let mut set = BTreeMap::new();
+        for (i, k) in fam.iter().enumerate() {
+            if present[i] {
+                set.insert(*k, vh(i, 0));
+            }
+        }
+        let leaves: Vec<(Key, Vh)> = set.iter().map(|(k, v)| (*k, *v)).collect();
+        let root = refmodel::root_of_leaves::<H>(&leaves);
+        Trie { fam, leaves, set, root }
+    }
+
     fn honest(&self, key: &Key) -> PathProof {
         let rp = refmodel::path_proof::<H>(&self.leaves, key);
         let terminal = match rp.terminal {
@@ -399,6 +412,44 @@ impl ProofX {
     fn run_c07_wide(&mut self, case: &Value) -> Outcome {
         let mask = case["s"].as_u64().unwrap() as u32;
         let t = Trie::with_family(family_wide(), mask);
+        let all: Vec<usize> = (0..t.fam.len()).collect();
+        self.multi_over_whole_family(t, mask as u64, &all)
+    }
+
+    /// Comb tries: `n` keys `b^i ¬b …` (i = 0..n-1) hanging off one spine, so that the bisection of
+    /// a multi-proof over all of them nests n-1 levels deep (far beyond log2 of the number of
+    /// paths); `gap` > 0 leaves every gap-th tooth absent (non-existence terminals on the spine).
+    fn run_c07_comb(&mut self, case: &Value) -> Outcome {
+        let n = case["n"].as_u64().unwrap() as usize;
+        let ones = case["ones"].as_bool().unwrap();
+        let gap = case["gap"].as_u64().unwrap() as usize;
+        let mut fam: Vec<Key> = (0..n)
+            .map(|i| {
+                let mut k = if ones { [0u8; 32] } else { [0xffu8; 32] };
+                for b in 0..i {
+                    if ones {
+                        k[b / 8] |= 0x80 >> (b % 8);
+                    } else {
+                        k[b / 8] &= !(0x80 >> (b % 8));
+                    }
+                }
+                // bit i stays ¬b; a tail marker keeps the keys apart from the all-b key
+                k[31] ^= 0x01;
+                k
+            })
+            .collect();
+        fam.sort();
+        fam.dedup();
+        let present: Vec<bool> = (0..fam.len()).map(|i| gap == 0 || i % gap != gap - 1).collect();
+        let t = Trie::with_present(fam, &present);
+        let m = t.fam.len();
+        let mut writes: Vec<usize> = vec![0, 1, m / 2, m - 2, m - 1];
+        writes.sort();
+        writes.dedup();
+        self.multi_over_whole_family(t, (n as u64) << 8 | (gap as u64) << 1 | ones as u64, &writes)
+    }
+
+    fn multi_over_whole_family(&mut self, t: Trie, mask: u64, write_keys: &[usize]) -> Outcome {
         let fam = t.fam.clone();
         let mut out = Outcome::default();
         out.nontrivial = true;
@@ -434,8 +485,7 @@ impl ProofX {
                 return out;
             }
         }
-        let all: Vec<usize> = (0..fam.len()).collect();
-        for w in write_sets(&all, &fam, 2) {
+        for w in write_sets(write_keys, &fam, 2) {
             let truth = t.root_after(&w);
             let m = verify_multi_proof_update::<H>(&verified, w.clone());
             let mut updates = vec![];
@@ -456,7 +506,7 @@ impl ProofX {
             }
         }
         out.sig = fnv_str(&format!("wide{mask}:{}", positions.len()));
-        out.states.push(mask as u64 | 1 << 40);
+        out.states.push(mask | 1 << 40);
         out.goals.push(if positions.len() >= 14 { "wide:>=14-terminals" } else { "wide:<14-terminals" });
         out
     }
@@ -1230,8 +1280,16 @@ impl Engine for ProofX {
                 for (m, k) in masks_upto(20, if thorough { 3 } else { 2 }) {
                     cases.push(json!({"mode": "c07w", "s": 0xFFFFFu32 ^ m, "bound": k}));
                 }
+                // comb tries: deep bisection nesting
+                for n in if thorough { vec![3usize, 9, 33, 63, 64, 65, 66, 67, 100, 129, 200, 254] } else { vec![3usize, 33, 64, 65, 66, 67, 129, 254] } {
+                    for ones in [true, false] {
+                        for gap in [0usize, 2, 3] {
+                            cases.push(json!({"mode": "c07comb", "n": n, "ones": ones, "gap": gap, "bound": 2}));
+                        }
+                    }
+                }
                 cases.sort_by_key(|c| c["bound"].as_u64().unwrap());
-                let mut p = Plan::new(cases, format!("proofx: every key set S of ≤{smax} keys from a 12-key family (diverging at bits 0,1,2,6,7,12,255 + a 4-cluster sharing 20 bits) × every non-empty query set Q of ≤{qmax} family keys (present and absent; honest path proofs from the independent reference trie, de-duplicated, ordered) aggregated by MultiProof::from_path_proofs × every sorted write set of ≤{wmax} operations (delete / write) over the keys in scope; oracle: multi-proof verifies, every confirm_* (also _with_index for every index, find_index_for) equals the single-path answer and the truth, verify_multi_proof_update = verify_update = reference root of the updated set. Plus 'wide' cases: a 20-key family minus every subset of ≤2 (thorough ≤3) keys, all 20 keys queried at once (up to 20 terminals in one multi-proof), every write set of 1..2 operations anywhere (written terminals separated by 0..18 untouched ones). One case = one S; bound = |S| (wide: number of removed keys); transitions = (S,Q) and (S,Q,W) combinations checked."));
+                let mut p = Plan::new(cases, format!("proofx: every key set S of ≤{smax} keys from a 12-key family (diverging at bits 0,1,2,6,7,12,255 + a 4-cluster sharing 20 bits) × every non-empty query set Q of ≤{qmax} family keys (present and absent; honest path proofs from the independent reference trie, de-duplicated, ordered) aggregated by MultiProof::from_path_proofs × every sorted write set of ≤{wmax} operations (delete / write) over the keys in scope; oracle: multi-proof verifies, every confirm_* (also _with_index for every index, find_index_for) equals the single-path answer and the truth, verify_multi_proof_update = verify_update = reference root of the updated set. Plus 'wide' cases: a 20-key family minus every subset of ≤2 (thorough ≤3) keys, all 20 keys queried at once (up to 20 terminals in one multi-proof), every write set of 1..2 operations anywhere (written terminals separated by 0..18 untouched ones). Plus comb tries: n ∈ {{3,…,254}} keys b^i·¬b hanging off one spine (both orientations; all present, or every 2nd / 3rd tooth absent), all n queried in one multi-proof whose bisection nests n−1 levels, confirm_* for every key, updates at the first / second / middle / last teeth. One case = one S; bound = |S| (wide: number of removed keys); transitions = (S,Q) and (S,Q,W) combinations checked."));
                 p.budget_s = if thorough { 1700 } else { 55 };
                 p.assumptions = vec!["Blake3 hasher; key family of 12; value hashes from two classes per key".into()];
                 p
@@ -1268,6 +1326,7 @@ impl Engine for ProofX {
         match case["mode"].as_str().unwrap() {
             "c07" => self.run_c07(case),
             "c07w" => self.run_c07_wide(case),
+            "c07comb" => self.run_c07_comb(case),
             "c08" => self.run_c08(case),
             "c18" => self.run_c18(case),
             m => panic!("bad mode {m}"),
